@@ -81,7 +81,7 @@ type checkOpts struct {
 	prop, tier, repo, verif string
 	timeout                 int
 	only                    string
-	dump                    string
+	dump, out, onlyFn       string
 	updateExpected          bool
 	verbose                 bool
 	jobs                    int
@@ -97,6 +97,8 @@ func cmdCheck(args []string) int {
 	fs.IntVar(&o.timeout, "timeout", 0, "per-obligation solver timeout (s)")
 	fs.StringVar(&o.only, "only", "", "regexp: only obligations whose name matches")
 	fs.StringVar(&o.dump, "dump", "", "directory to dump SMT queries to")
+	fs.StringVar(&o.onlyFn, "only-func", "", "debugging: verify only the contracts whose function name matches this regular expression")
+	fs.StringVar(&o.out, "out", "", "directory for evidence/ and replays/ (default: the -verif directory)")
 	fs.BoolVar(&o.updateExpected, "update-expected", false, "rewrite expected/<prop>.json from this run")
 	fs.BoolVar(&o.verbose, "v", false, "verbose")
 	fs.IntVar(&o.jobs, "j", 0, "parallel obligations")
@@ -110,11 +112,21 @@ func cmdCheck(args []string) int {
 	}
 	if o.jobs == 0 {
 		o.jobs = runtime.NumCPU() / 2
+		if o.tier == "thorough" {
+			o.jobs = runtime.NumCPU()
+		}
 		if o.jobs < 2 {
 			o.jobs = 2
 		}
 	}
 	return runCheck(&o)
+}
+
+func (o *checkOpts) outDir() string {
+	if o.out != "" {
+		return o.out
+	}
+	return o.verif
 }
 
 type oblReport struct {
@@ -186,9 +198,16 @@ func runCheck(o *checkOpts) int {
 			fmt.Fprintln(os.Stderr, "ENGINE-FAULT: load:", err)
 			return 2
 		}
+		var onlyRe *regexp.Regexp
+		if o.onlyFn != "" {
+			onlyRe = regexp.MustCompile(o.onlyFn)
+		}
 		for _, key := range eng.cs.Order {
 			con := eng.cs.Funcs[key]
 			if con.External || !con.Props[o.prop] {
+				continue
+			}
+			if onlyRe != nil && !onlyRe.MatchString(con.Func) {
 				continue
 			}
 			if !o.updateExpected && sampledOut(con, o.tier, seed) {
@@ -491,7 +510,7 @@ func runCheck(o *checkOpts) int {
 		fmt.Printf("  obligation %s: %s (%s)\n", ob.Name, ob.Status, ob.Src)
 	}
 	// expected obligations that vanished
-	if !o.updateExpected && o.only == "" {
+	if !o.updateExpected && o.only == "" && o.onlyFn == "" {
 		for _, n := range expected.Names {
 			if i := strings.Index(n, "#"); i > 0 && skippedFuncs[n[:i]] {
 				continue // function not in this run's quick-tier sample
@@ -565,18 +584,18 @@ func runCheck(o *checkOpts) int {
 		"property_id": o.prop, "tier": o.tier, "seed": seed, "level": "proof",
 		"coverage": map[string]any{
 			"obligations": nObl, "discharged": discharged,
-			"checker_cmd":   fmt.Sprintf("bin/gowp check -prop %s -tier %s", o.prop, o.tier),
-			"trusted_base":  tb,
-			"functions_under_contract": funcs,
-			"per_obligation": reports,
-			"solver_time_s": float64(solverMs) / 1000,
-			"load_time_s":   loadS,
-			"covers":        map[string]int{"checked": covers, "satisfiable": coversOK},
-			"known_findings": knownHit,
-			"unproved_not_claimed": unproved,
-			"engine_faults":  engineFaults,
+			"checker_cmd":                          fmt.Sprintf("bin/gowp check -prop %s -tier %s", o.prop, o.tier),
+			"trusted_base":                         tb,
+			"functions_under_contract":             funcs,
+			"per_obligation":                       reports,
+			"solver_time_s":                        float64(solverMs) / 1000,
+			"load_time_s":                          loadS,
+			"covers":                               map[string]int{"checked": covers, "satisfiable": coversOK},
+			"known_findings":                       knownHit,
+			"unproved_not_claimed":                 unproved,
+			"engine_faults":                        engineFaults,
 			"schema_functions_not_in_quick_sample": sampledSkipped,
-			"samples":        samples,
+			"samples":                              samples,
 		},
 		"assumptions": asl,
 		"wall_s":      time.Since(start).Seconds(),
@@ -587,14 +606,14 @@ func runCheck(o *checkOpts) int {
 		fmt.Printf("ENGINE-FAULT: no obligations generated for %s\n", o.prop)
 		ev["coverage"].(map[string]any)["explanation"] = "no obligations generated"
 	}
-	os.MkdirAll(filepath.Join(o.verif, "evidence"), 0o755)
+	os.MkdirAll(filepath.Join(o.outDir(), "evidence"), 0o755)
 	b, _ := json.MarshalIndent(ev, "", " ")
-	os.WriteFile(filepath.Join(o.verif, "evidence", o.prop+".json"), b, 0o644)
+	os.WriteFile(filepath.Join(o.outDir(), "evidence", o.prop+".json"), b, 0o644)
 	fmt.Printf("%s %s: %d obligations, %d discharged, %d known findings, %d violations, %d engine faults, %.1fs\n", o.prop, o.tier, nObl, discharged, len(knownHit), violations, len(engineFaults), time.Since(start).Seconds())
 	if violations > 0 {
 		return 1
 	}
-	if nObl == 0 || (len(engineFaults) > 0 && !o.updateExpected && o.only == "") {
+	if nObl == 0 || (len(engineFaults) > 0 && !o.updateExpected && o.only == "" && o.onlyFn == "") {
 		for _, ef := range engineFaults {
 			fmt.Println("ENGINE-FAULT:", ef)
 		}
@@ -705,7 +724,7 @@ func (k *knownSet) match(prop, obl string) *KnownFinding {
 }
 
 func writeReplay(o *checkOpts, ob *Obligation, c *FuncCtx) string {
-	dir := filepath.Join(o.verif, "replays", o.prop)
+	dir := filepath.Join(o.outDir(), "replays", o.prop)
 	os.MkdirAll(dir, 0o755)
 	path := filepath.Join(dir, sanitizeFile(ob.Name)+".txt")
 	var b strings.Builder
